@@ -109,6 +109,21 @@ func gen(g *vh.Gen) {
 			g.Emit("scan", st, fmt.Sprint(p), b, "-", "-")
 		}
 	}
+	// the ENVIRONMENT of the file store: the storage path a symbolic link, <path>/mail a symbolic link to a directory
+	// elsewhere, the first-level hash directories replaced by symbolic links after the mail has arrived — deliveries
+	// and listings go through the links, and so must the scan: same oracle, undisturbed and with interference
+	for _, lay := range []string{"pathlink", "maillink", "bucketlink"} {
+		for i := 0; i < g.N(4, 150); i++ {
+			p := periods[1+g.Intn(len(periods)-1)]
+			b, adds, names := boxes(g, p, 1+g.Intn(5))
+			in := "-"
+			if i%2 == 1 {
+				in = genInj(g, "file", adds, names, p)
+			}
+			g.Emit("scan", "file."+lay, fmt.Sprint(p), b, in, "-")
+		}
+		g.Emit("slow", "file."+lay, "3600", vh.HS("b")+":9000,9999;"+vh.HS("a")+":9000,5", vh.HS("b"))
+	}
 	// large mailboxes (cap 0): 1100 and more messages in one mailbox, the oldest k of them expired — k small and
 	// k > 1000 —, next to a small control mailbox; afterwards every id is asked for on its own. The memory store in
 	// the quick tier; the file store (each delivery and removal rewrites the index: seconds per case) and a larger
